@@ -161,6 +161,29 @@ def h_memory(e, subset, cached, order="asc", after="none"):
     e.claim("canary:mem", len(rows) == len(words) + 1)
     if after == "none":
         return
+    if after == "partial":
+        # a store that starts on the last byte of the address space and runs off its end: the byte
+        # written before the address error is in the backing store (C18), so the table shows it
+        from architecture_simulator.uarch.memory.memory import MemoryAddressError
+
+        v2 = e.int("after", 0, 0xFFFF)
+        raised = False
+        try:
+            mem.write_halfword(0xFFFFFFFF, f.UInt16(v2))
+        except MemoryAddressError:
+            raised = True
+        e.claim("store-off-the-end-raises", raised)
+        written[0xFFFFFFFF] = v2 & 0xFF
+        rows4 = sim.get_data_memory_entries()
+        words4 = sorted({a & ~3 for a in written})
+        e.claim("rows-after-partial-store", [r[0][0] for r in rows4] == words4, {"rows": [r[0][0] for r in rows4], "want": words4})
+        for r in rows4:
+            a = r[0][0]
+            w = 0
+            for i in range(4):
+                w = w | (written.get(a + i, 0) << (8 * i))
+            check_reprs(e, "after-partial@%x" % a, r[1], w, 32)
+        return
     # the table follows the store through a reset / a reload: no row of the previous contents
     # remains, and the next written byte shows up with its current value
     if after == "reset":
@@ -218,6 +241,8 @@ def jobs(tier, seed):
         for order in (("asc",) if len(s) < 2 else ("asc", "desc") if len(s) == 2 else ("asc", "desc", "rot")):
             after = ("none", "reset", "reload")[(k + len(order)) % 3] if len(s) <= 2 else "none"
             out.append({"label": "memory-%s-%s%s" % ("_".join(map(str, s)), order, "" if after == "none" else "-" + after), "harness": "memory", "args": {"subset": list(s), "cached": bool(len(s) and k % 5 == 0), "order": order, "after": after}, "cost": 2, "validate_every": 2})
+    for s_ in ([], [0], [len(CAND) - 1], [0, len(CAND) - 1], [len(CAND) - 2], [1, 4]):
+        out.append({"label": "memory-%s-partial" % "_".join(map(str, s_)), "harness": "memory", "args": {"subset": s_, "cached": False, "order": "asc", "after": "partial"}, "cost": 2, "validate_every": 1})
     out.append({"label": "toy", "harness": "toy", "args": {}, "cost": 5})
     return out
 
